@@ -1160,6 +1160,8 @@ class Interp(object):
             return o.sym_load(self, k, node)
         if isinstance(o, Poison):
             raise CheckerError('line %d: subscript of loop-carried value %s' % (node.lineno, o.name))
+        if isinstance(o, P):
+            raise CheckerError('line %d: subscript of a symbolic scalar (the abstraction of this value needs a contract)' % node.lineno)
         if isinstance(k, P) or (isinstance(k, tuple) and any(isinstance(x, P) for x in k)):
             raise CheckerError('line %d: symbolic index into concrete container %r' % (node.lineno, type(o).__name__))
         try:
